@@ -897,6 +897,22 @@ class LuaFE:
             raise LuaError("attempt to call method '%s' (a nil value)" % name, line)
         if is_sym(obj) or isinstance(obj, (int, float)):
             raise LuaError("attempt to index a number value (method '%s')" % name, line)
+        if isinstance(obj, Tvb):
+            # Wireshark's Tvb: the captured bytes (the canonical encoding: captured length = reported length)
+            if name in ('len', 'reported_len', 'captured_len'):
+                return len(obj.data)
+            if name in ('reported_length_remaining',):
+                off = args[0] if args else 0
+                if not isinstance(off, int):
+                    raise Unsupported('Tvb:%s with a symbolic offset' % name)
+                return len(obj.data) - off if off <= len(obj.data) else -1
+            if name == 'range':
+                o = args[0] if args else 0
+                l = args[1] if len(args) > 1 else len(obj.data) - o
+                return self.call(obj, [o, l], line, name='range')
+            if name == 'offset':
+                return 0
+            raise LuaError("attempt to call method '%s' (a nil value)" % name, line)
         raise Unsupported('method %s on %s' % (name, type(obj).__name__))
 
     def range_method(self, r, name, args, line):
